@@ -565,8 +565,13 @@ static cJSON_bool print_number(const cJSON * const item, printbuffer * const out
         /* Try 15 decimal places of precision to avoid nonsignificant nonzero digits */
         length = sprintf((char*)number_buffer, "%1.15g", d);
 
-        /* Check whether the original double can be recovered */
-        if ((sscanf((char*)number_buffer, "%lg", &test) != 1) || !compare_double((double)test, d))
+        /*
+         * Check whether the original double can be recovered: exactly, not
+         * just within a tolerance. 9007199254740991 printed with 15 digits
+         * reads back as 9007199254740990, which is "close", but it is another
+         * number - another request id, another value of a state.
+         */
+        if ((sscanf((char*)number_buffer, "%lg", &test) != 1) || ((double)test != d))
         {
             /* If not, print with 17 decimal places of precision */
             length = sprintf((char*)number_buffer, "%1.17g", d);
